@@ -507,7 +507,8 @@ impl World {
                 let msg = &op["msg"];
                 if self.hostile_addr(&sender) {
                     // the hostile contract forwards the message, so the marketplace sees it as sender
-                    let fwd = json!({"forward": {"to": self.market.as_str(), "msg": msg}});
+                    // (attached coins are forwarded from the hostile contract's own balance)
+                    let fwd = json!({"forward": {"to": self.market.as_str(), "msg": msg, "funds": op["funds"]}});
                     let driver = Addr::unchecked(self.users[0].clone());
                     self.app.execute_contract(driver, Addr::unchecked(sender), &fwd, &[])?;
                 } else {
